@@ -185,6 +185,24 @@ class Gen:
         x = {"k": "role", "markup": r["markup"], "target": target, "spec": spec}
         if label is not None:
             x["label"] = label
+            if rng.random() < 0.25:
+                # a label written with backslash escapes: the reader sees the characters, not the backslashes
+                # (escaped angle brackets must not be taken for the start of the target)
+                pieces = [("Use the ", "Use the "), ("\\<b\\>", "<b>"), (" tag", " tag"), ("\\*x\\*", "*x*"), (" a\\<b", " a<b"), ("\\`q", "`q"),
+                          (" c\\\\d", " c\\d"), ("1 \\< 2", "1 < 2")]
+                chosen = [rng.choice(pieces) for _ in range(rng.randint(1, 3))]
+                src = ("L" + "".join(a for a, _ in chosen)).rstrip()   # blanks before `<target>` belong to the separator
+                # snooty's stated rule for explicit-title roles (rstparser.unescape_backslashes): a backslash disappears in front
+                # of `<`, `>` and `"` only; every other escape keeps its backslash
+                txt, i = "", 0
+                while i < len(src):
+                    if src[i] == "\\" and i + 1 < len(src):
+                        txt += src[i + 1] if src[i + 1] in "<>\"" else src[i:i + 2]
+                        i += 2
+                    else:
+                        txt += src[i]
+                        i += 1
+                x = {"k": "roleL", "markup": r["markup"], "labelSrc": src, "labelTxt": txt, "target": target, "spec": spec}
         return x
 
     def inline_item(self):
